@@ -12,6 +12,8 @@ pub mod evmodel;
 pub mod evcheck;
 pub mod fetchsim;
 pub mod fetchcheck;
+pub mod c16check;
+pub mod c17check;
 
 use common::{Failure, ReplayFile, Tier, case_from};
 
@@ -23,6 +25,8 @@ pub fn dispatch(prop: &str, tier: Tier, seed: u64) -> i32 {
         "C11" => fetchcheck::check_c11(tier, seed),
         "C13" => memchecks::check_c13(tier, seed),
         "C14" => evcheck::check_c14(tier, seed),
+        "C16" => c16check::check_c16(tier, seed),
+        "C17" => c17check::check_c17_memory_only(tier, seed).finish(),
         "C18" => memchecks::check_c18(tier, seed),
         _ => {
             eprintln!("no check registered for {prop}");
@@ -37,6 +41,9 @@ pub fn replay(rf: &ReplayFile) -> anyhow::Result<Option<Failure>> {
         ("C05", "capdist") => memchecks::exec_capdist(&case_from(rf)?).failure,
         ("C06", _) => fetchcheck::exec_fetch(fetchcheck::Which::C06, &case_from(rf)?).failure,
         ("C11", _) => fetchcheck::exec_fetch(fetchcheck::Which::C11, &case_from(rf)?).failure,
+        ("C17", "memory-collide") => c17check::replay_mem(case_from(rf)?),
+        ("C17", "inflight-collide") => c17check::replay_fetch(case_from(rf)?),
+        ("C16", _) => c16check::exec_c16(&case_from(rf)?).failure,
         ("C14", _) => evcheck::exec_c14(&case_from(rf)?).failure,
         ("C05" | "C13" | "C18", _) => memchecks::replay_mem(&rf.property, case_from(rf)?),
         (p, s) => anyhow::bail!("no replay handler for {p}/{s}"),
